@@ -212,6 +212,16 @@ def ones_like(a, dtype=None, **kw):
     return ones(_shape_of(a), dtype=dtype)
 
 
+@override("clip")
+def clip(a, a_min=None, a_max=None, out=None, **kw):
+    r = a
+    if a_min is not None:
+        r = _np.maximum(r, a_min)
+    if a_max is not None:
+        r = _np.minimum(r, a_max)
+    return r
+
+
 @override("copy")
 def copy(a, **kw):
     return _A(a).view(_np.ndarray).copy().view(SymArray)
